@@ -27,7 +27,7 @@ ref.compile_template = functools.lru_cache(maxsize=None)(ref.compile_template)
 ref.parts_of = functools.lru_cache(maxsize=None)(ref.parts_of)
 
 # ---------------------------------------------------------------- alphabets
-SEG1 = ["a", "b", "{x}", "{x:\\d+}", "a{x}", "{t:.*}", "a b", "é"]
+SEG1 = ["a", "b", "{x}", "{x:\\d+}", "a{x}", "{t:.*}", "a b", "é", "a+b"]   # a+b: a regex metacharacter in fixed text
 SEG2 = ["a", "b", "{y}", "{y:\\d+}", "a{y}", "{u:.*}", "a b"]
 METHODS = {"G": ("GET",), "P": ("POST",), "*": ("*",), "GP": ("GET", "POST")}
 
@@ -47,7 +47,7 @@ def templates(full: bool):
     return out
 
 
-QSEG = ["a", "b", "1", "a%20b", "%2F", "%C3%A9", "a1", ""]
+QSEG = ["a", "b", "1", "a%20b", "%2F", "%C3%A9", "a1", "", "a+b", "aab"]
 
 
 def query_paths():
@@ -225,7 +225,7 @@ def sections(quick):
     # sub-applications mounted on a prefix (nested once), before/after a parent resource
     subroutes = ["", "/", "/b", "/{y}", "/{u:.*}", "/b/{y}"]
     parents = [None] + entries(["/a/{y}", "/a/b", "/{t:.*}", "/a", "/a/b/{z}"], ["G", "P"])
-    prefixes = ["/a", "/a/b", "/a b", "/é"] if not quick else ["/a", "/a/b", "/a b"]
+    prefixes = ["/a", "/a/b", "/a b", "/é", "/a+b"] if not quick else ["/a", "/a/b", "/a b", "/a+b"]
 
     def subtables():
         Es = entries(subroutes, ["G", "P"])
@@ -389,7 +389,7 @@ def run(ctx):
             ctx.merge(part, name)
     # url_for inverse
     tpls = [t for t in templates(True) if "{" in t] + ["/a b", "/é", "/a"]
-    jobs = [((m,), tpls[i:i + 12]) for m in ("", "/m", "/m n") for i in range(0, len(tpls), 12)]
+    jobs = [((m,), tpls[i:i + 12]) for m in ("", "/m", "/m n", "/m+n", "/m(n)") for i in range(0, len(tpls), 12)]
     for part in ctx.pmap(_job_urlfor, jobs):
         ctx.merge(part, "url_for")
     # redirects
